@@ -159,6 +159,7 @@ pub fn run(ctx: &Ctx) -> i32 {
             one(r, &mut rng, &schema, &dict);
         }
     });
+    crate::also_in_release_build(&mut report, "C08", ctx);
     report.finish()
 }
 
